@@ -38,7 +38,6 @@ def cfgOfJson (j : Json) : Except String Config := do
   pure { evaluationInterval := ei, olderThan := ot, maxFinished := mf, batchSize := bs, ignoredStates := ig.toList }
 
 def errStr : Err → String
-  | .olderThanUnset => "olderThanUnset"
   | .deleteFailed _ => "deleteFailed"
 
 def outcomeJson (o : Outcome) : Json :=
